@@ -217,6 +217,21 @@ func events(in []byte) (string, bool) {
 	}
 }
 
+// parseCase: the model of the parser itself (Json/JsonParse.v) must deliver the real parser's events and its verdict on
+// the same text, well-formed or not (texts up to 20 kB: the model is evaluated by the extracted code)
+func parseCase(win, wout *bufio.Writer, in []byte) {
+	if len(in) > 20000 {
+		return
+	}
+	evs, ok := events(in)
+	fmt.Fprintf(win, "json_parse\t%s\n", hexOrDash(in))
+	v := "0"
+	if ok {
+		v = "1"
+	}
+	fmt.Fprintf(wout, "%s|%s\n", evs, v)
+}
+
 // endsInObjectValue reports whether the real parser stops (without error) while a member value is expected.
 func endsInObjectValue(in []byte) bool {
 	z := parse.NewInputBytes(append([]byte{}, in...))
@@ -555,10 +570,12 @@ func main() {
 			fmt.Fprintf(win, "json_tree\t%s\n", tb.String())
 			fmt.Fprintf(wout, "%s\n", evs)
 		}
+		parseCase(win, wout, in)
 	}
 	runHostile := func(cs int, in []byte) {
 		stream = "malformed"
 		defer func() { stream = "valid" }()
+		parseCase(win, wout, in)
 		for _, keep := range []bool{false, true} {
 			out, err, pan := minifyJSON(in, keep)
 			res.Evaluations++
